@@ -9,7 +9,7 @@ MANIFEST = {
     "note": "Trusted: Lean kernel; model (differential tie + kernels); the security context's length law (signature length = header size) is a premise about pyspnego; single-fragment requests only (> 65535 bytes raises OverflowError, outside the property's range)",
     "technique": "Lean 4 proof (layout identity by arithmetic on lengths) + kernel extraction + wire correspondence with an independent receiver",
 }
-THEOREMS_TODO = ["DpapiNg.C13.request_layout", "DpapiNg.C13.request_alignment", "DpapiNg.C13.getKeyResult_strips_exactly"]
+THEOREMS = ["DpapiNg.C13.request_layout", "DpapiNg.C13.request_alignment", "DpapiNg.C13.prepare_layout", "DpapiNg.C13.setFragLen_spec", "DpapiNg.C13.getKeyResult_strips_exactly"]
 RULE = ("stub lengths 0..300 (every residue mod 16 ≥ 18 times) × verification trailer on/off × signature sizes {16,28,60,76} × header signing on/off × {sync, async}; "
         "reply path: reply stub lengths × pad_length 0..15; distinct by op line")
 ASSUMPTIONS = ["A.LengthLaws: the signature the security context returns has length header_len", "wire size < 65536"]
@@ -142,4 +142,3 @@ def replay(ctx, payload):
     c2 = type(ctx)(ctx.prop, "quick", ctx.seed)
     run(c2)
     return not c2.violations
-THEOREMS = []
